@@ -351,8 +351,25 @@ def r39(ctx: Ctx) -> RuleReport:
                 norm(a.generators[0].iter) == f'{ior.positional[1]}.triples' and isinstance(a.elt, ast.Name) \
                 and isinstance(a.generators[0].target, ast.Name) and a.elt.id == a.generators[0].target.id:
             good = True
-    rep.add(f'{ior.fq}: new triples are appended in the order of other.triples', ior.loc(), 'ok' if good else 'undecided',
-            '' if good else 'self.triples is not extended by a filter over other.triples')
+    dedup = None
+    for c in ext:
+        a = c.args[0] if c.args else None
+        if isinstance(a, ast.Name):
+            a = single_def(ctx, ior, a)
+        if isinstance(a, (ast.GeneratorExp, ast.ListComp)) and len(a.generators) == 1 and isinstance(a.generators[0].iter, ast.Call):
+            itc = a.generators[0].iter
+            if norm(itc.func) in ('dict.fromkeys', 'OrderedDict.fromkeys', 'collections.OrderedDict.fromkeys', 'set', 'frozenset') \
+                    and itc.args and norm(itc.args[0]) == f'{ior.positional[1]}.triples':
+                dedup = (c, itc)
+    if dedup and not good:
+        c, itc = dedup
+        rep.violation(f'{ior.fq}: new triples are appended in the order of other.triples', ior.loc(c),
+                      f'the appended triples are drawn from `{norm(itc)}`, which keeps one copy of each triple: a triple that other states twice and self lacks is added '
+                      f'once, so a | b is no longer a.triples followed by the triples of b that a lacks (Graph() | b differs from b; difference keeps such duplicates, '
+                      f'union drops them)' + ('; a set also loses the order' if norm(itc.func) in ('set', 'frozenset') else ''))
+    else:
+        rep.add(f'{ior.fq}: new triples are appended in the order of other.triples', ior.loc(), 'ok' if good else 'undecided',
+                '' if good else 'self.triples is not extended by a filter over other.triples')
     # ... and only triples that are not there yet (a union of sets of triples)
     op = ior.positional[1]
     for c in ext:
@@ -589,6 +606,8 @@ def r13(ctx: Ctx) -> RuleReport:
                     rep.exception(key, where, fz)
                 elif verdict == 'ok':
                     rep.ok(key, where, msg)
+                elif verdict == 'undecided':
+                    rep.undecided(key, where, msg)
                 else:
                     rep.violation(key, where, msg)
     rep.analysed['set_iterations'] = n_sets
@@ -628,6 +647,9 @@ def _classify_set_iteration(ctx, fi, pm, node, it, kind):
     if kind.startswith('call:'):
         nm = kind.split(':')[1]
         if nm == 'sorted':
+            kw = [k.value for k in node.keywords if k.arg == 'key'] if isinstance(node, ast.Call) else []
+            if kw and not (isinstance(kw[0], ast.Constant) and kw[0].value is None):
+                return _sort_key_total(ctx, fi, kw[0])
             return 'ok', 'sorted before use'
         if isinstance(par, ast.Call) and isinstance(par.func, ast.Name) and par.func.id in ORDER_FREE_CONSUMERS:
             return 'ok', f'consumed by {par.func.id}()'
@@ -637,6 +659,75 @@ def _classify_set_iteration(ctx, fi, pm, node, it, kind):
     if kind in ('join', 'extend', 'unpack'):
         return 'violation', f'{kind} over a set: order depends on the hash seed'
     return 'violation', 'set iteration'
+
+
+LOSSY = {'int': "'0' and '00' (or 'b0' and 'b00') give the same number", 'float': "'1' and '1.0' give the same number", 'len': 'equally long elements collide',
+         'lower': "'A' and 'a' collide", 'upper': "'A' and 'a' collide", 'casefold': "'A' and 'a' collide", 'strip': "'a' and 'a ' collide",
+         'lstrip': "' a' and 'a' collide", 'rstrip': "'a' and 'a ' collide", 'bool': 'all non-empty elements collide', 'abs': '1 and -1 collide',
+         'hash': 'the value itself depends on the hash seed', 'round': '1.1 and 1.2 collide', 'random': 'a random key', 'isdigit': 'a boolean key',
+         'startswith': 'a boolean key', 'endswith': 'a boolean key'}
+
+
+def _sort_key_total(ctx, fi, keyexpr):
+    """sorted(<set>, key=f) gives one order only if f never ties: elements with equal keys keep the order of the input, and the input is in hash order."""
+    def contains_param(e, p):
+        if isinstance(e, ast.Name):
+            return e.id == p
+        if isinstance(e, ast.Tuple):
+            return any(contains_param(x, p) for x in e.elts)
+        return False
+    if isinstance(keyexpr, ast.Lambda) and len(keyexpr.args.args) == 1:
+        p = keyexpr.args.args[0].arg
+        if contains_param(keyexpr.body, p):
+            return 'ok', 'sorted with a key that contains the element itself (no ties)'
+        bodies, owner = [keyexpr.body], fi
+        kf = None
+    else:
+        kf = None
+        if isinstance(keyexpr, ast.Name) and keyexpr.id in ('str', 'repr'):
+            return 'ok', f'sorted by {keyexpr.id}() of the element'
+        probe = ast.Call(func=keyexpr, args=[], keywords=[])
+        ast.copy_location(probe, keyexpr)
+        try:
+            ts = ctx.cg.resolve_call(probe, fi)
+        except Exception:
+            ts = []
+        fs = [t.func for t in ts if t.kind == 'func']
+        if len(fs) != 1:
+            return 'undecided', f'sorted with key={norm(keyexpr)[:40]}: the key function is not resolved, ties cannot be excluded'
+        kf = fs[0]
+        pp = [x for x in kf.positional if x not in ('self', 'cls')]
+        if not pp:
+            return 'undecided', f'key function {kf.fq} has no parameter'
+        p = pp[0]
+        rets = [r.value for r in walk_local(kf.node) if isinstance(r, ast.Return) and r.value is not None]
+        if rets and all(contains_param(r, p) for r in rets):
+            return 'ok', f'sorted with {kf.qualname}, whose result contains the element itself (no ties)'
+        bodies, owner = [kf.node], kf
+    # positive evidence of ties: a lossy conversion on the way from the element to the key
+    seenf, todo, found = set(), list(bodies), None
+    depth_funcs = [owner]
+    while todo and found is None:
+        b = todo.pop()
+        for x in ast.walk(b):
+            if isinstance(x, ast.Call):
+                nm = x.func.id if isinstance(x.func, ast.Name) else (x.func.attr if isinstance(x.func, ast.Attribute) else '')
+                if nm in LOSSY:
+                    found = (nm, x)
+                    break
+                try:
+                    for t in ctx.cg.resolve_call(x, owner):
+                        if t.kind == 'func' and t.func.fq not in seenf and len(seenf) < 6:
+                            seenf.add(t.func.fq)
+                            todo.append(t.func.node)
+                except Exception:
+                    pass
+    if found:
+        nm, x = found
+        return 'violation', (f'sorted with key={norm(keyexpr)[:40]}: the key passes (part of) the element through `{norm(x)[:30]}` - {LOSSY[nm]} - and does not '
+                             f'contain the element itself, so two elements can tie; tied elements keep their input order, which for a set is the hash order: '
+                             f'the result differs between PYTHONHASHSEED values')
+    return 'undecided', f'sorted with key={norm(keyexpr)[:40]}: the key does not contain the element itself and ties cannot be excluded'
 
 
 def _is_iterated(ctx: Ctx, fi: FuncInfo, name: str) -> bool:
@@ -736,4 +827,57 @@ def r15(ctx: Ctx) -> RuleReport:
     pop = ctx.repo.cls('penman.layout', 'Pop')
     rep.add('penman.layout:Pop defines no __eq__/__hash__ that could mask a copy', pop.module.relpath,
             'ok' if not ({'__eq__', '__hash__'} & set(pop.methods)) else 'info')
+    return rep
+
+
+# ---------------------------------------------------------------------------------------------
+@rule('R123', 'Graph() gives every triple it is built from a role with a leading colon, whatever kind of sequence the triple is')
+def r123(ctx: Ctx) -> RuleReport:
+    from ..resolve import symbolic_returns
+    rep = RuleReport('R123', r123.title, floor=1)
+    gi = ctx.repo.func(G, 'Graph.__init__')
+    stores = [n for n in walk_local(gi.node) if isinstance(n, ast.Assign) and norm(n.targets[0]) == 'self.triples']
+    if len(stores) != 1:
+        rep.undecided(f'{gi.fq}: self.triples is built once', gi.loc(), f'{len(stores)} stores')
+        return rep
+    v = stores[0].value
+    key = f'{gi.fq}: every stored triple is (source, _ensure_colon(role), target)'
+    if not (isinstance(v, (ast.ListComp, ast.GeneratorExp)) or (isinstance(v, ast.Call) and norm(v.func) == 'list' and v.args and isinstance(v.args[0], (ast.GeneratorExp, ast.ListComp)))):
+        rep.undecided(key, gi.loc(stores[0]), norm(v)[:60])
+        return rep
+    comp = v if isinstance(v, (ast.ListComp, ast.GeneratorExp)) else v.args[0]
+
+    def normalised(e) -> bool:
+        return isinstance(e, ast.Tuple) and len(e.elts) == 3 and isinstance(e.elts[1], ast.Call) and norm(e.elts[1].func) == '_ensure_colon'
+    if comp.generators[0].ifs:
+        rep.violation(key, gi.loc(stores[0]), f'the triples are filtered with {[norm(c) for c in comp.generators[0].ifs]}: some of the triples given to Graph() are dropped')
+        return rep
+    if normalised(comp.elt):
+        rep.ok(key, gi.loc(stores[0]), norm(comp.elt))
+        return rep
+    if isinstance(comp.elt, ast.Call):
+        hs = [t.func for t in ctx.cg.resolve_call(comp.elt, gi) if t.kind == 'func']
+        if len(hs) == 1:
+            h = hs[0]
+            try:
+                paths = symbolic_returns(h)
+            except AnalysisError as exc:
+                rep.undecided(key, h.loc(), str(exc)[:80])
+                return rep
+            bad = []
+            for conds, val, st in paths:
+                if val is None or not normalised(val):
+                    bad.append((conds, val, st))
+            if not bad:
+                rep.ok(key, h.loc(), f'{h.qualname}: {len(paths)} return path(s), all through _ensure_colon')
+                return rep
+            conds, val, st = bad[0]
+            passes = val is not None and (norm(val) in h.params or (isinstance(val, ast.Call) and norm(val.func) in ('tuple', 'list') and val.args and norm(val.args[0]) in h.params))
+            cs = [norm(c) if pol else f'not ({norm(c)})' for c, pol in conds]
+            rep.add(key, h.loc(st), 'violation' if passes else 'undecided',
+                    f'when {cs or "always"} {h.qualname} returns `{norm(val) if val is not None else None}`: the triple is stored as it came, its role is not given the leading colon - '
+                    f'Graph([Triple("b", "instance", "bark")]) keeps the role "instance", so instances() misses it, attributes() reports it, and the graph is unequal to '
+                    f'the same graph built from plain tuples')
+            return rep
+    rep.undecided(key, gi.loc(stores[0]), norm(comp.elt)[:60])
     return rep
